@@ -7,11 +7,11 @@ export CARGO_TARGET_DIR=$WT/target CARGO_NET_OFFLINE=true TMPDIR=$WT/target/tmp
 mkdir -p $TMPDIR
 git checkout -q -- . ; git clean -fdq -e target -e OUT
 git apply $SD/patch.diff || { echo "PATCH DOES NOT APPLY"; exit 1; }
-R1=$(cargo test --offline 2>&1 | grep "^test result" | tail -1); rm -rf $TMPDIR/*
+R1=$(cargo test --offline 2>&1 | grep "^test result" | tail -1); find $TMPDIR -mindepth 1 -maxdepth 1 -exec rm -rf {} +
 git apply $SD/demo.diff || { echo "DEMO DOES NOT APPLY"; exit 1; }
-D1=$(cargo test --offline $EXTRA "$DEMO" 2>&1 | grep "^test result" | tail -1); rm -rf $TMPDIR/*
+D1=$(cargo test --offline $EXTRA "$DEMO" 2>&1 | grep "^test result" | tail -1); find $TMPDIR -mindepth 1 -maxdepth 1 -exec rm -rf {} +
 git apply -R $SD/patch.diff
-D2=$(cargo test --offline $EXTRA "$DEMO" 2>&1 | grep "^test result" | tail -1); rm -rf $TMPDIR/*
+D2=$(cargo test --offline $EXTRA "$DEMO" 2>&1 | grep "^test result" | tail -1); find $TMPDIR -mindepth 1 -maxdepth 1 -exec rm -rf {} +
 echo "with patch, existing suite: $R1"
 echo "with patch, demo only: $D1"
 echo "without patch, demo only: $D2"
